@@ -152,10 +152,10 @@ func (s *Schema) AddTwoWayRel(rel Rel) error {
 // relationships (two types where each has a relationship pointing to the other
 // type), only one of the two relationships will appear in the list.
 func (s *Schema) Rels() []Rel {
-	s.buildRels()
+	set := s.buildRels()
 
-	rels := make([]Rel, 0, len(s.rels))
-	for _, rel := range s.rels {
+	rels := make([]Rel, 0, len(set))
+	for _, rel := range set {
 		rels = append(rels, rel)
 	}
 
@@ -259,13 +259,15 @@ func (s *Schema) Check() []error {
 
 // buildRels builds the set of normalized relationships that is returned by
 // Schema.Rels.
-func (s *Schema) buildRels() {
-	s.rels = map[string]Rel{}
+func (s *Schema) buildRels() map[string]Rel {
+	rels := map[string]Rel{}
 
 	for _, typ := range s.Types {
 		for _, rel := range typ.Rels {
 			relName := rel.String()
-			s.rels[relName] = rel.Normalize()
+			rels[relName] = rel.Normalize()
 		}
 	}
+
+	return rels
 }
